@@ -292,21 +292,24 @@ PROPS = {
         "fallback": {"encode_hash": ["c01_encode_hash_bounded"]},
         "native_cex": "c02_codec_replay",
         "level": "proof",
-        "level_text": "Deductive proof (Verus) on the real encode_node and encode_hash (src/bit_encoding/encode.rs): for every node kind, every position and child distance, "
-                      "encode_node writes exactly ncode(abstract content of the node) - the same function that decode_node's consumed bits are proved to equal (unit `decode`, C02) - "
-                      "and its debug assertions / unreachable arms cannot fire for items the post-order iterator yields; encode_hash writes the bytes' bits, most significant first. "
-                      "Over the two contracts: a node with the content of a decoded node is re-encoded to exactly the bits the decoder consumed (theorem_node_reencode). "
-                      "Only this per-node codec layer of C01 is addressed.",
-        "level_note": "Assumed contracts: BitWriter::{write_bit, write_bits_be} and encode_natural as proved in unit bitstream (C13); Jet::encode writes the jet's code (C14); encode_value appends the "
-                      "value's compact bits (iterator proved in unit value, C10); the item precondition item_ok is PostOrderIter::next's contract (C18) instantiated with EncodeNode::as_dag_node, "
-                      "which is not itself re-proved here; `node::Node<N>` is an opaque node type with an arbitrary `inner()`. NOT decided: that decoding rebuilds the same DAG (identity-hash sharing, "
-                      "hidden-node sharing, type re-inference), the program-level length prefix and node order (encode_program), the witness stream (encode_witness), roots and types of the result.",
+        "level_text": "Deductive proof (Verus) on the real serialiser (src/bit_encoding/encode.rs): encode_node writes exactly ncode(abstract content of the node) for every node kind, position "
+                      "and child distance - the same function decode_node's consumed bits are proved to equal (unit `decode`, C02) - and its debug assertions / unreachable arms cannot fire for "
+                      "items the post-order iterator yields; encode_hash writes the bytes' bits; encode_value writes the value's compact bits one by one; encode_witness writes every witness "
+                      "value, bit for bit, in iteration order; encode_program writes the node count followed by every node's code in iteration order and returns the number of bits written; "
+                      "EncodeSharing (nodes keyed by sharing id, hidden nodes by root) meets the SharingTracker contract; the bit-level writers and encode_natural are proved in unit bitstream. "
+                      "Over the contracts: a node with the content of a decoded node is re-encoded to exactly the bits the decoder consumed (theorem_node_reencode). Only this codec layer "
+                      "of C01 is addressed.",
+        "level_note": "Assumed contracts: Jet::encode writes the jet's code (proved per family under C14); `value.iter_compact()` yields the value's compact bits (iterator proved in unit value, C10); "
+                      "the iterators encode_program / encode_witness loop over yield a ghost sequence of items satisfying item_ok (what C18 proves of PostOrderIter::next, instantiated with "
+                      "EncodeNode::as_dag_node and EncodeSharing - the instantiation is not re-proved); `node::Node<N>` is an opaque node type with an arbitrary `inner()`; EncodeId is a lawful HashMap key. "
+                      "NOT decided: that decoding rebuilds the same DAG (identity-hash sharing, hidden-node sharing, type re-inference), that the witness iterator visits witnesses in the decoder's "
+                      "order (Node::encode_with_witness), roots and types of the decoded program.",
         "assumptions": [
             "BitWriter::{write_bit, write_bits_be}, encode_natural contracts (proved under C13)",
             "Jet::encode writes the family's code for the jet (C14); encode_value writes the value's compact bits (C10)",
             "items handed to encode_node satisfy PostOrderIter::next's contract (C18) for EncodeNode::as_dag_node",
         ],
-        "not_decided": ["same DAG after decoding (sharing, hidden nodes, type inference)", "encode_program / encode_witness loops", "cmr/ihr/amr/arrow equality after the round trip", "witness values bit-for-bit"],
+        "not_decided": ["same DAG after decoding (sharing, hidden nodes, type inference)", "witness iteration order equals the decoder's conversion order", "cmr/ihr/amr/arrow equality after the round trip"],
         "explanation": "",
     },
     "C09": {
